@@ -116,6 +116,8 @@ type wisOpts struct {
 	// meshVariant selects the mesh configuration (simMesh); it changes at run time through setMesh, as a reload of
 	// the mesh ConfigMap would, and a replica built from these options starts with the current one
 	meshVariant int
+	// gateways are the east-west gateways of the mesh networks (a multi-network mesh when non-empty)
+	gateways []model.NetworkGateway
 }
 
 // simMesh is the mesh configuration of every simulated control plane: the default plus one access-log-service
@@ -181,6 +183,7 @@ func newWisInstance(t *testing.T, name string, o wisOpts) *wisInstance {
 		KubernetesObjects:  o.kubeObjects,
 		KubeClientModifier: o.kubeModifier,
 		MeshConfig:         simMesh(o.meshVariant),
+		Gateways:           o.gateways,
 	})
 	features.EnableXDSCaching = prevCache
 	// what bootstrap.initMeshHandlers does: a mesh configuration change requests a forced global push
